@@ -108,6 +108,7 @@ def run(ctx):
     rng = ctx.rng
     quick = ctx.tier == 'quick'
     PC.tcp_option_correspondence(ctx, rng, 500 if quick else 8000, runner_ok)
+    PC.tlv_correspondence(ctx, rng, 600 if quick else 10000, runner_ok)
     corp = PC.corpus(rng, 500 if quick else 6000)
     entries = [e for e in acc['from_buffer'] if e not in ('PPI', 'PKTAP')]
     hv = PC.harvested_corpus(entries)
